@@ -863,6 +863,27 @@ theorem run_flush {pend : Option Nat} {E pc c : Nat} {sv : Array Nat} (hA : At U
     rw [execT_step_some hS hp rfl hst]
     rfl
 
+/-- append the captures of what came before -/
+def thenRes (w1 : Caps) : Option (Nat × Caps) → Option (Nat × Caps)
+  | none => none
+  | some (c2, w2) => some (c2, w2 ++ w1)
+
+omit hS in
+theorem sem_cons (S : ScanI) (k : Nat) (it : Item) (r : List Item) (c : Nat) (hnr : ∀ a b, it ≠ .range a b) :
+    sem S k (it :: r) c =
+      match semItem S k it c with
+      | none => none
+      | some (c1, w1) => thenRes w1 (sem S (slotsItem k it) r c1) := by
+  rw [sem.eq_3 _ _ _ _ _ (fun a b hab => hnr a b hab)]
+  cases semItem S k it c with
+  | none => rfl
+  | some r1 =>
+    obtain ⟨c1, w1⟩ := r1
+    simp only
+    cases sem S (slotsItem k it) r c1 with
+    | none => rfl
+    | some r2 => rfl
+
 /-- **what compiler correctness asserts** about the `len` atoms at `pc`, run at cursor `c` with save
 array `sv` and `ext_range = E`, `res` being the documented result: on a match the interpreter arrives
 behind the atoms at the documented cursor, has written the documented captures and left the slots
@@ -878,10 +899,7 @@ omit hS in
 theorem Runs.seq {k k1 pc len1 len2 E c : Nat} {sv : Array Nat} {c1 : Nat} {w1 : Caps} {res2 : Option (Nat × Caps)}
     (h1 : Runs S U k pc len1 E c sv (some (c1, w1))) (hs1 : SlotsIn w1 k k1) (hk : k ≤ k1)
     (h2 : ∀ sv1, SaveOK k sv sv1 → Runs S U k1 (pc + len1) len2 0 c1 sv1 res2) :
-    Runs S U k pc (len1 + len2) E c sv
-      (match res2 with
-       | none => none
-       | some (c2, w2) => some (c2, w2 ++ w1)) := by
+    Runs S U k pc (len1 + len2) E c sv (thenRes w1 res2) := by
   obtain ⟨sv1, he1, ho1, hw1, _⟩ := h1
   have h2 := h2 sv1 ho1
   cases res2 with
@@ -945,13 +963,10 @@ theorem Runs.flush {k pc len E c : Nat} {sv : Array Nat} {pend : Option Nat} {re
   Runs.of_eq (run_flush hS hA hg) (by omega) h
 
 omit hS in
-theorem res_append_nil (res : Option (Nat × Caps)) :
-    (match res with
-     | none => none
-     | some (c2, w2) => some (c2, w2 ++ ([] : Caps))) = res := by
+theorem thenRes_nil (res : Option (Nat × Caps)) : thenRes [] res = res := by
   cases res with
   | none => rfl
-  | some r => obtain ⟨c2, w2⟩ := r; simp
+  | some r => obtain ⟨c2, w2⟩ := r; simp [thenRes]
 
 /-- a run of exact bytes -/
 theorem run_bytes (k : Nat) : ∀ (bs : List Nat) (pc c : Nat) (sv : Array Nat), At U pc (bs.map Atom.byte) →
@@ -1102,7 +1117,7 @@ theorem runs_cons {it : Item} {r : List Item} {k : Nat} {pend : Option Nat} {E p
       Runs S U (slotsItem k it) (pc + (flush pend).length + code.length) (comp (slotsItem k it) none r).length 0 c1 sv1
         (sem S (slotsItem k it) r c1)) :
     Runs S U k pc (comp k pend (it :: r)).length E c sv (sem S k (it :: r) (cur pend E c)) := by
-  rw [sem.eq_3 _ _ _ _ _ (fun a b hab => hnr a b hab)]
+  rw [sem_cons S k it r _ hnr]
   rw [hcomp] at hA ⊢
   have hlen : (flush pend ++ code ++ comp (slotsItem k it) none r).length =
       (flush pend).length + (code.length + (comp (slotsItem k it) none r).length) := by
@@ -1114,6 +1129,7 @@ theorem runs_cons {it : Item} {r : List Item} {k : Nat} {pend : Option Nat} {E p
   | some r1 =>
     obtain ⟨c1, w1⟩ := r1
     rw [hsi] at hit
+    simp only
     have hc1 : c1 < 4294967296 := by obtain ⟨_, _, _, _, h⟩ := hit; exact h
     exact Runs.seq hit (semItem_slots S k it _ _ _ hsi) (slotsItem_le k it) (fun sv1 _ => hr c1 sv1 hc1)
 
@@ -1153,19 +1169,16 @@ theorem group_runs {j : Jump} {gap : List UInt8} {body : List Item} {k d pc c : 
   have hlen : (Atom.push j.push :: j.atom :: (comp k none body ++ [Atom.pop])).length =
       2 + (comp k none body).length + 1 := by simp; omega
   rw [hlen]
-  rw [show execT S U ⟨pc, c, sv⟩ 0xff 0 = _ from execT_push hS (st := ⟨pc, c, sv⟩) hpush] at *
   cases htg : j.target S c with
   | none =>
     rw [htg] at hjs
     obtain ⟨st', he, hok⟩ := hjs
     refine ⟨st', ?_, hok⟩
     rw [execT_push hS (st := ⟨pc, c, sv⟩) hpush]
-    simp only
     rw [he]
   | some t =>
     rw [htg] at hjs
     obtain ⟨sv0, he, hok0, _, ht⟩ := hjs
-    simp only [Option.map_some] at he
     have hb := hbody t sv0 ht
     cases hsb : sem S k body t with
     | none =>
@@ -1173,7 +1186,6 @@ theorem group_runs {j : Jump} {gap : List UInt8} {body : List Item} {k d pc c : 
       obtain ⟨st', he2, hok2⟩ := hb
       refine ⟨st', ?_, hok0.trans hok2 (Nat.le_refl _)⟩
       rw [execT_push hS (st := ⟨pc, c, sv⟩) hpush]
-      simp only
       rw [he, show pc + 1 + 1 = pc + 2 by omega, he2]
     | some rb =>
       obtain ⟨cb, wb⟩ := rb
@@ -1181,7 +1193,6 @@ theorem group_runs {j : Jump} {gap : List UInt8} {body : List Item} {k d pc c : 
       obtain ⟨sv2, he2, hok2, hw2, _⟩ := hb
       refine ⟨sv2, ?_, hok0.trans hok2 (Nat.le_refl _), hw2, by simp only [addRva_eq_wadd32]; exact wadd32_lt _ _⟩
       rw [execT_push hS (st := ⟨pc, c, sv⟩) hpush]
-      simp only
       rw [he, show pc + 1 + 1 = pc + 2 by omega, he2, hterm cb sv2]
       simp only [skipAmt_push, addRva_eq_wadd32]
       rfl
